@@ -136,6 +136,9 @@ def _check(pid, tier, seed, runs, budget, info, scratch, t0):
             "dask_calls_under_graphsim": int(agg.get("dask_calls", 0)),
             "graphsim_task_steps": int(agg.get("sim_steps", 0)),
             "calls_per_hour": int(calls / wall * 3600) if wall > 0 else 0,
+            "histories_per_hour": int(agg.get("histories", 0) / wall * 3600) if wall > 0 else 0,
+            "seed_note": "every history index h is its own derived seed sha256(VERIF_SEED, property, 'history', h); seeds/hour = histories/hour",
+            "distinct_states_measure": "distinct ordered (previous entry -> this entry) call pairs (C11) / distinct (function, backend, dtype:layout...) combinations (C10) actually executed",
             "catalogue_entries": len(cat["entries"]),
             "pool_rasters": len(cat["pool"]),
             "references_computed": len(refs),
